@@ -15,7 +15,7 @@ RULE = ('(a) random valid configurations (1-3 connections x 1-3 protect entries,
         'same oracle. (c) ACQUIRE mapping: for every protect entry, kernel-encoded ACQUIREs with selectors at the corners of the entry (first / last address, '
         'port 0 / the entry\'s port / 65535) are fed through the real main_loop: the negotiation goes to that connection\'s peer, re-uses an established IKE_SA with '
         'it (CREATE_CHILD_SA instead of a new IKE_SA_INIT), and the request opened by the wire shadow carries the entry\'s proposal, mode, and TSi/TSr that contain '
-        'the acquire\'s selector and the entry\'s selector and lie inside the entry\'s; an ACQUIRE with an unknown index emits nothing and leaves the table unchanged. '
+        'the acquire\'s selector and the entry\'s selector and lie inside the entry\'s; an ACQUIRE with an unknown index emits nothing and leaves the table unchanged; a second ACQUIRE arriving while the first handshake is in flight is queued and served (two CHILD_SAs, no IKE_SA lost). '
         'distinct = configuration / restart point / acquire signatures.')
 ASSUMPTIONS = ['fake kernel: model SPD keyed by (selector, direction); NEWPOLICY of an existing key => EEXIST like Linux']
 SHARDS = {'quick': 8, 'thorough': 16}
@@ -304,6 +304,28 @@ def acquire_case(ck, rng, i):
     sim.net.clear()
 
 
+def double_acquire(ck, i):
+    """A second ACQUIRE while the handshake started by the first is still in flight: both flows end up protected."""
+    from vf import monitors
+    sim, a, b = S.make_pair(ck.seed * 71 + i)
+    sim.case = {'family': 'double-acquire', 'i': i}
+    tm = monitors.TableMonitor(ck)
+    sim.monitors.append(tm.on_step)
+    sim.acquire(a, 0, sport=7001)
+    deliver_first = i % 3
+    for _ in range(deliver_first):
+        if sim.net:
+            sim.deliver(0)
+    sim.acquire(a, 0, sport=7002)
+    sim.drain()
+    sim.settle()
+    ck.count('double_acquire.runs')
+    ck.nontrivial(('double-acquire', deliver_first))
+    est = [s for s in a.ctl.ike_sas if s.state.name == 'ESTABLISHED']
+    if len(est) != 1 or len(est[0].child_sas) != 2 or len(a.kernel.sad) != 4 or set(a.kernel.sad) != set(b.kernel.sad):
+        ck.violation('second-acquire-during-the-handshake-was-not-served', {'ike_sas': [(s.state.name, len(s.child_sas)) for s in a.ctl.ike_sas], 'sad': len(a.kernel.sad)}, sim.case)
+
+
 def unknown_index_fresh(ck, i):
     """Unknown index while NO IKE_SA with that peer exists (a fresh IKE_SA object must not be left behind)."""
     sim, a, b = S.make_pair(ck.seed * 67 + i)
@@ -333,6 +355,9 @@ def run(ck):
             acquire_case(ck, ck.rng('acq', i), i)
     if ck.mine(1):
         unknown_index_fresh(ck, 1)
+    for i in range(6):
+        if ck.mine(i + 2):
+            double_acquire(ck, i)
 
 
 def verdict(ck):
@@ -344,4 +369,5 @@ def verdict(ck):
     ck.floor('acquires sent', c['acquire.sent'], 150)
     ck.floor('offers checked', c['acquire.offers_checked'], 120)
     ck.floor('acquires that re-used the IKE_SA', c['acquire.reused_ike_sa'], 100)
+    ck.floor('double-acquire runs', c['double_acquire.runs'], 4)
     return None
